@@ -13,7 +13,7 @@ from pyvc.models.calc_model import CalcModel, EnergyOracle, arrays_equal, config
 from pyvc.models.ase_model import CellModel
 from pyvc.objects import Builtin, Ext, Obj
 from pyvc.solver import CutPath
-from pyvc.values import Sym, Tensor, to_z3
+from pyvc.values import Sym, Tensor, Unsupported, to_z3
 
 MC = "quansino.mc.core.MonteCarlo"
 DM = "quansino.moves.displacement.DisplacementMove"
@@ -46,8 +46,32 @@ def inv_rows(I, atoms, arr_name, saved):
     return rows_equal_z3(atoms.arrays[arr_name].at(I, p), saved.at(I, p))
 
 
+def _role_atoms(frame):
+    """the Atoms the loop works on: a local bound to it, or context.atoms"""
+    for v in frame.locals.values():
+        if isinstance(v, AtomsHeap):
+            return v
+    ctx = frame.locals.get("context")
+    return ctx.attrs["atoms"]
+
+
+def _role_saved_positions(I, frame, atoms):
+    """the local that holds the positions saved before the attempts: preferably `old_positions`, else the only local
+    that is a per-atom (n,3) array, is not the atoms' own array object and equals the positions at loop entry"""
+    cur = atoms.arrays["positions"]
+    v = frame.locals.get("old_positions")
+    if isinstance(v, SArr) and v is not cur:
+        return v
+    from pyvc.models.calc_model import arrays_equal
+    cands = [x for x in frame.locals.values() if isinstance(x, SArr) and x is not cur and x.row == (3,) and arrays_equal(I, x, cur)]
+    if len(cands) != 1:
+        raise Unsupported(f"cannot identify the saved positions among the locals of the attempt loop ({len(cands)} candidates)")
+    return cands[0]
+
+
 def displacement_loop_contract(I, node, frame):
-    atoms, old = frame.locals["atoms"], frame.locals["old_positions"]
+    atoms = _role_atoms(frame)
+    old = _role_saved_positions(I, frame, atoms)
     I.path.oblige(DM + ".attempt_displacement#loop[0].init", inv_rows(I, atoms, "positions", old), kind="loop")
     from pyvc.models.arrays import assign_in_place
     assign_in_place(atoms.arrays["positions"], old.like(old.term))      # havoc to the invariant, keeping the array object (aliases!)
@@ -58,7 +82,14 @@ def displacement_loop_contract(I, node, frame):
 
 
 def cell_loop_contract(I, node, frame):
-    atoms, oc, op_ = frame.locals["atoms"], frame.locals["old_cell"], frame.locals["old_positions"]
+    atoms = _role_atoms(frame)
+    op_ = _role_saved_positions(I, frame, atoms)
+    oc = frame.locals.get("old_cell")
+    if not isinstance(oc, CellModel):
+        cells = [x for x in frame.locals.values() if isinstance(x, CellModel) and x is not atoms.cell]
+        if len(cells) != 1:
+            raise Unsupported(f"cannot identify the saved cell among the locals of the attempt loop ({len(cells)} candidates)")
+        oc = cells[0]
 
     def inv():
         c = z3.And([to_z3(a, "real") == to_z3(b, "real") for a, b in zip(atoms.cell.array.data, oc.array.data)])
